@@ -88,6 +88,17 @@ NEEDS.update({
 })
 SRC_OVERRIDE.update({n: "/tmp/mut2/%s/_out/%s" % (n[:3], "A" if n[3] == "C" else "B") for n in NEEDS if n[3] in "CD"})
 
+NEEDS.update({
+ "C04C": NEEDS["C04C"], "C04D": NEEDS["C04D"],
+ "C16C": ("C16", "G2 isogeny_map gains an identity early-return that tests z.c0 twice", "a non-identity point of E'_2 in a representative whose Z is purely imaginary (c0 = 0, c1 != 0)"),
+ "C16D": ("C16", "eval_iso skips the trailing Z^2 / Z^3 factors when is_normalized()", "an identity representative (X, Y, 0) with X != 0, e.g. the library's own P + (-P)"),
+ "C17C": ("C17", "add_assign: hoisted raw-coordinate doubling test + 'u1 == u2 => zero'", "small-order points of the full curve (order 3, 11 on E; 13 on E'): a chain prefix meets the input in another representation"),
+ "C17D": ("C17", "G2 clear_h gains an identity short-cut that tests z.c0 twice", "a non-identity G2 point in a representative with purely imaginary Z"),
+ "C18C": ("C18", "Fq2 partial_cmp written out with the tie-break operands swapped (Ord::cmp unchanged)", "operands with equal u-coefficient: <, <=, >, >= give the reverse answer"),
+ "C18D": ("C18", "Fq2::sgn0 tests only the lowest limb of c0 for zero", "c0 a non-zero multiple of 2^64 and c1 odd"),
+})
+SRC_OVERRIDE.update({n: "/tmp/mut2/%s/_out/%s" % (n[:3], "A" if n[3] == "C" else "B") for n in NEEDS if n[3] in "CD"})
+
 
 def first_line(path, pat):
     try:
